@@ -109,7 +109,8 @@ fn c11_session_merge_is_join_1x2() {
 
 fn merge_is_join(n_newer: usize, n_older: usize) {
     let newer = ValueSetSession { map: any_map_upto(n_newer) };
-    let older: ValueSet = Box::new(ValueSetSession { map: any_map_upto(n_older) });
+    let older_map = any_map_upto(n_older);
+    let older: ValueSet = Box::new(ValueSetSession { map: older_map });
     let trim = any_cid();
     let r = newer.repl_merge_valueset(&older, &trim);
     let r = match r {
@@ -119,13 +120,20 @@ fn merge_is_join(n_newer: usize, n_older: usize) {
             return;
         }
     };
-    check!(r.map.model_wf(), "map model stays well formed");
+    let rmap = match r.as_session_map() {
+        Some(m) => *m,
+        None => {
+            check!(false, "C11: the merged value is a session set");
+            return;
+        }
+    };
+    check!(rmap.model_wf(), "map model stays well formed");
     let mut id = 0u8;
     while id < 3 {
         let k = Uuid(id);
         let a = newer.map.get(&k).copied();
-        let b = older.map.get(&k).copied();
-        let got = r.map.get(&k).copied();
+        let b = older_map.get(&k).copied();
+        let got = rmap.get(&k).copied();
         let want_state = match (a, b) {
             (Some(x), Some(y)) => Some(maxs(x.state, y.state)),
             (Some(x), None) => Some(x.state),
@@ -152,8 +160,8 @@ fn merge_is_join(n_newer: usize, n_older: usize) {
         }
         id += 1;
     }
-    kani::cover!(r.map.len() == n_newer + n_older && n_newer + n_older <= 3, "disjoint sessions after merge");
-    kani::cover!(newer.map.len() == 1 && older.map.len() == 2 && r.map.len() == 1, "some merged or trimmed");
+    kani::cover!(rmap.len() == n_newer + n_older && n_newer + n_older <= 3, "disjoint sessions after merge");
+    kani::cover!(newer.map.len() == 1 && older_map.len() == 2 && rmap.len() == 1, "some merged or trimmed");
 }
 
 /// The join the merge computes (maximum in the state order) is commutative, associative and
@@ -172,6 +180,81 @@ fn c11_state_join_laws() {
     }
     kani::cover!(is_revoked(&c) && !is_revoked(&a) && !is_revoked(&b), "revocation arrives from the third replica");
     kani::cover!(is_revoked(&a) && is_revoked(&b) && a != b, "two different revocations");
+}
+
+fn any_o2_map(maxlen: usize) -> BTreeMap<Uuid, Oauth2Session> {
+    let len: usize = kani::any();
+    kani::assume(len <= maxlen);
+    let k0: u8 = kani::any();
+    let k1: u8 = kani::any();
+    kani::assume(k0 < 3 && k1 < 3);
+    let mk = || Oauth2Session { state: any_state(), rs_uuid: Uuid(kani::any::<u8>() % 3), tag: kani::any() };
+    let mut slots: [Option<(Uuid, Oauth2Session)>; MAP_CAP] = [None; MAP_CAP];
+    if len >= 1 {
+        slots[0] = Some((Uuid(k0), mk()));
+    }
+    if len >= 2 {
+        slots[1] = Some((Uuid(k1), mk()));
+    }
+    let m = BTreeMap::model_from_raw(len, slots);
+    kani::assume(m.model_wf());
+    m
+}
+
+/// The same for OAuth2 sessions (their own copy of the merge code).
+#[kani::proof]
+#[kani::unwind(6)]
+fn c11_oauth2_merge_is_join_1x2() {
+    let newer = ValueSetOauth2Session { map: any_o2_map(1), rs_filter: 0 };
+    let wrong_type: bool = kani::any();
+    let older_map = any_o2_map(2);
+    let older: ValueSet = if wrong_type {
+        Box::new(ValueSetSession { map: BTreeMap::default() })
+    } else {
+        Box::new(ValueSetOauth2Session { map: older_map, rs_filter: 0 })
+    };
+    let trim = any_cid();
+    let r = newer.repl_merge_valueset(&older, &trim);
+    if wrong_type {
+        check!(r.is_none(), "C11: a value of another type is not merged (the newer value is taken)");
+        return;
+    }
+    let rmap = match r.as_ref().and_then(|v| v.as_oauth2session_map()) {
+        Some(m) => *m,
+        None => {
+            check!(false, "C11: merging two OAuth2 session sets yields an OAuth2 session set");
+            return;
+        }
+    };
+    let mut id = 0u8;
+    while id < 3 {
+        let k = Uuid(id);
+        let a = newer.map.get(&k).copied();
+        let b = older_map.get(&k).copied();
+        let got = rmap.get(&k).copied();
+        let want_state = match (a, b) {
+            (Some(x), Some(y)) => Some(maxs(x.state, y.state)),
+            (Some(x), None) => Some(x.state),
+            (None, Some(y)) => Some(y.state),
+            (None, None) => None,
+        };
+        match want_state {
+            None => check!(got.is_none(), "C11: merge invents no OAuth2 session"),
+            Some(ws) => {
+                if trimmed(&ws, &trim) {
+                    check!(got.is_none(), "C11: a revocation older than the changelog window is trimmed");
+                } else {
+                    match got {
+                        Some(g) => check!(g.state == ws, "C11: merged OAuth2 session state is the maximum of both replicas' states"),
+                        None => check!(false, "C11: merge loses no OAuth2 session inside the changelog window"),
+                    }
+                }
+            }
+        }
+        id += 1;
+    }
+    kani::cover!(rmap.len() == 3, "three sessions after merge");
+    kani::cover!(rmap.len() == 1 && older_map.len() == 2, "merged or trimmed");
 }
 
 /// Contract of the map model.
@@ -201,5 +284,6 @@ fn c11_twin_must_fail() {
     let older: ValueSet = Box::new(ValueSetSession { map: any_map_upto(1) });
     let r = newer.repl_merge_valueset(&older, &any_cid());
     check!(r.is_some(), "reach");
+    core::mem::forget(r);
     kani::assert(false, "twin: reachable");
 }
